@@ -113,6 +113,20 @@ def gen_family(rng, n_classes=None, kinds=None, n_variants=None, rich=False):
                 files['main_' + sw['file']] = copy.deepcopy(files['main_' + v['file']])
                 files['main_' + sw['file']]['uses'] = [u.replace(v['file'], sw['file']) for u in files['main_' + v['file']]['uses']]
                 variants.append(sw)
+    if rich:
+        # a share of the contexts is given as a context FILE that pulls the actual entries in through `uses` (same meaning as the list
+        # of dicts, which stays in v['context'] for the reference evaluation); the same file then serves every chain built for the variant
+        for v in variants:
+            c = v.get('context')
+            if c and rng.random() < 0.3:
+                parts = c if isinstance(c, list) else [c]
+                stem = 'ctx_' + v['file'].replace('.json', '')
+                names = []
+                for i, part in enumerate(parts):
+                    files[f'{stem}_u{i}.json'] = copy.deepcopy(part)
+                    names.append(f'@cfg/{stem}_u{i}.json')
+                files[f'{stem}.json'] = {'uses': names}
+                v['context_disk'] = f'@cfg/{stem}.json'
     spec = {'module': modname, 'classes': classes, 'files': files, 'main': 'main_v0.json'}
     return spec, variants
 
@@ -323,7 +337,7 @@ def run_history(spec, variants, ops, root, multichain=False, data=None, stamp=Fa
         r = {'op': op}
         if op['op'] == 'build':
             v = variants[op['variant']]
-            chain, err = pl.build(b, data, main='main_' + v['file'], context=v.get('context'))
+            chain, err = pl.build(b, data, main='main_' + v['file'], context=v.get('context_disk') or v.get('context'))
             r['error'] = err
             chains.append(chain); all_chains.append(chain); chain_variant[id(chain)] = v
             if chain is not None:
@@ -799,7 +813,7 @@ def run_history_steps(spec, variants, ops, root, obs, mod):
     for op in ops:
         if op['op'] == 'build':
             v = variants[op['variant']]
-            chain, err = pl.build(b, data, main='main_' + v['file'], context=v.get('context'))
+            chain, err = pl.build(b, data, main='main_' + v['file'], context=v.get('context_disk') or v.get('context'))
             if err:
                 return None
             chains.append(chain); all_chains.append(chain)
